@@ -35,26 +35,30 @@ type UFDecl struct {
 	Name   string
 	Params []string
 	Ret    string
+	// attributes stated per application instead of as quantified axioms
+	HasRange bool
+	Lo, Hi   int64 // "range lo hi": lo <= f(..) <= hi (integer result)
+	Len      int64 // "len n": len(f(..)) == n (string result); -1 when absent
 }
 
 type Loader struct {
-	fset  *token.FileSet
-	pkgs  []*packages.Package
-	prog  *ssa.Program
-	byPath map[string]*packages.Package
-	funcs map[string]*ssa.Function // key -> function
-	specs *Specs
-	typeTags map[string]int
-	strNames map[string]string
-	nstr   int
+	fset        *token.FileSet
+	pkgs        []*packages.Package
+	prog        *ssa.Program
+	byPath      map[string]*packages.Package
+	funcs       map[string]*ssa.Function // key -> function
+	specs       *Specs
+	typeTags    map[string]int
+	strNames    map[string]string
+	nstr        int
 	inlineLimit int
-	anchors map[*ssa.Function]map[token.Pos]string
-	globs  []globSpec
-	repoDir string
-	curTop *ssa.Function
-	immGlobals map[string]bool
-	allFuncs map[*ssa.Function]bool
-	assignRHS map[*ssa.Function]map[ast.Expr]string
+	anchors     map[*ssa.Function]map[token.Pos]string
+	globs       []globSpec
+	repoDir     string
+	curTop      *ssa.Function
+	immGlobals  map[string]bool
+	allFuncs    map[*ssa.Function]bool
+	assignRHS   map[*ssa.Function]map[ast.Expr]string
 }
 
 type globSpec struct {
